@@ -11,8 +11,9 @@ import (
 
 func (x *Exec) pushFrame(st *State, fn *ssa.Function, args []Val, bind []Val, isTop bool) *Frame {
 	x.frameCtr++
-	f := &Frame{id: x.frameCtr, fn: fn, regs: map[ssa.Value]Val{}, bind: bind, isTop: isTop,
+	f := &Frame{id: x.frameCtr, fn: fn, regs: map[ssa.Value]Val{}, bind: bind, isTop: isTop, callPos: x.callPos,
 		active: map[*ssa.BasicBlock]*LoopEntry{}, cellsByA: map[*ssa.Alloc]*Cell{}}
+	x.callPos = token.NoPos
 	for i, p := range fn.Params {
 		f.regs[p] = args[i]
 		if t, ok := args[i].(*Term); ok {
@@ -271,42 +272,45 @@ func (x *Exec) loopSpec(fn *ssa.Function, ord int) *LoopSpec {
 }
 
 func (x *Exec) atLoopHead(st *State, f *Frame, li *LoopInfo) bool {
-	spec := x.loopSpec(f.fn, li.ordinal)
+	spec, ord, host := x.loopContext(st, f, li)
 	pos := x.blockPos(li.head)
-	fname := funcKey(f.fn)
+	fname := funcKey(host.fn)
 	ctx := x.newSpecCtx(st, f, f.fn)
 	ctx.loop = li
-	x.bindLoopLets(ctx, st, f)
+	if host != f {
+		ctx.host = host
+	}
+	x.bindLoopLets(ctx, st, host)
 	if entry, ok := f.active[li.head]; ok {
 		// arrived through a back edge
-		st.Note(fmt.Sprintf("backedge loop%d", li.ordinal))
+		st.Note(fmt.Sprintf("backedge loop%d", ord))
 		if spec != nil {
 			for _, inv := range spec.Invariants {
 				g := ctx.boolExpr(inv.E, true)
-				x.obligeSrc(st, "inv-pres", fmt.Sprintf("%s/loop%d/%s", fname, li.ordinal, inv.Name), g, pos, inv.Src)
+				x.obligeSrc(st, "inv-pres", fmt.Sprintf("%s/loop%d/%s", fname, ord, inv.Name), g, pos, inv.Src)
 			}
 			for _, sc := range spec.Steps {
 				g := ctx.boolExpr(sc.E, true)
-				x.obligeSrc(st, "loop-step", fmt.Sprintf("%s/loop%d/%s", fname, li.ordinal, sc.Name), g, pos, sc.Src)
+				x.obligeSrc(st, "loop-step", fmt.Sprintf("%s/loop%d/%s", fname, ord, sc.Name), g, pos, sc.Src)
 			}
 			if len(spec.Decreases) > 0 {
 				var now []*Term
 				for _, d := range spec.Decreases {
 					now = append(now, ctx.intExpr(d.E))
 				}
-				x.obligeSrc(st, "decreases", fmt.Sprintf("%s/loop%d", fname, li.ordinal), lexLess(now, entry.dec), pos, spec.Decreases[0].Src)
+				x.obligeSrc(st, "decreases", fmt.Sprintf("%s/loop%d", fname, ord), lexLess(now, entry.dec), pos, spec.Decreases[0].Src)
 			}
 		}
 		x.npaths++
 		return false
 	}
-	st.Note(fmt.Sprintf("enter loop%d", li.ordinal))
+	st.Note(fmt.Sprintf("enter loop%d", ord))
 	if spec == nil {
-		x.warn("%s: loop %d has no invariant (treated as true)", fname, li.ordinal)
+		x.warn("%s: loop %d has no invariant (treated as true)", fname, ord)
 	} else {
 		for _, inv := range spec.Invariants {
 			g := ctx.boolExpr(inv.E, true)
-			x.obligeSrc(st, "inv-init", fmt.Sprintf("%s/loop%d/%s", fname, li.ordinal, inv.Name), g, pos, inv.Src)
+			x.obligeSrc(st, "inv-init", fmt.Sprintf("%s/loop%d/%s", fname, ord, inv.Name), g, pos, inv.Src)
 		}
 	}
 	x.havocLoop(st, f, li)
@@ -332,14 +336,25 @@ func (x *Exec) atLoopHead(st *State, f *Frame, li *LoopInfo) bool {
 			}
 		}
 	}
-	entry := &LoopEntry{trace: st.trace, ordinal: li.ordinal, cells: map[*Cell]Val{}}
+	// built-in invariant of counting loops `for i := 0; ...; i++`: i never goes below 0
+	if a := countingVar(li); a != nil {
+		if cell := f.cellsByA[a]; cell != nil {
+			if t, ok := st.cells[cell].(*Term); ok {
+				st.Assume(Le(IntLit(0), t))
+			}
+		}
+	}
+	entry := &LoopEntry{trace: st.trace, ordinal: ord, cells: map[*Cell]Val{}}
 	for k, v := range st.cells {
 		entry.cells[k] = v
 	}
 	if spec != nil {
 		ctx2 := x.newSpecCtx(st, f, f.fn)
 		ctx2.loop = li
-		x.bindLoopLets(ctx2, st, f)
+		if host != f {
+			ctx2.host = host
+		}
+		x.bindLoopLets(ctx2, st, host)
 		for _, inv := range spec.Invariants {
 			st.Assume(ctx2.boolExpr(inv.E, false))
 		}
